@@ -21,6 +21,7 @@ for logs in (False, True):
             add_ff_query(HARNESSES, QUERIES, logs, q, b, k, w, to, tier if (not logs and (w, to) in ((1, 1), (0, 1))) else 'thorough')
         add_query(HARNESSES, QUERIES, logs, q, b, k, 0, 0, 'h_shutdown', 'shutdown_call', tier)
     add_query(HARNESSES, QUERIES, logs, 4, 2, 3, 0, 6, 'h_shutdown', 'shutdown_two_callers', 'quick')
+    add_query(HARNESSES, QUERIES, logs, 4, 2, 3, 2, 0, 'h_shutdown', 'shutdown_with_waiting_flush', 'quick' if not logs else 'thorough')
 BOUNDS = ['batch processors (span and log): max_queue_size 2..4, max_export_batch_size 1..4, 0..4 records, concrete shape per query; ForceFlush with timeout in {0 (=unlimited), 1000 us, max}; condition waits may time out or not', 'MultiSpanProcessor with 1..3 children (quick: 2 and 3) and MultiLogRecordProcessor with 2..3 children (quick: 2); one ForceFlush and one Shutdown; timeouts < 2^62 us or unlimited']
 OUTSIDE = ['real interleavings of ForceFlush / Shutdown callers with the worker: the worker is sequentialised (its Export / DrainQueue steps run where the caller blocks or are called directly; concurrent producers and ForceFlush tickets act at the points where the worker is inside the exporter); two Shutdown calls racing each other',
            'periodic metric reader, TracerProvider/LoggerProvider/MeterProvider forwarding', 'termination (liveness)']
